@@ -250,7 +250,7 @@ func main() {
 		// a worker of the thorough tier plans the second-order spaces before its
 		// first case: a few seconds, but more than the default 30 on a loaded machine
 		HangSeconds: 120,
-		Rule:        "every first-order mutant of every seed program: each AST position (expression slots, declaration names, statement lists, declaration list, calls, returns, assignments, value specs, function signatures, binary expressions) x each applicable operator of verif/gen/gomutants, plus the deletion of each token; thorough adds, for 5 seeds, every second-order mutant whose first mutation is structural (statement/declaration deletion and duplication, renamed declarations, arities of calls, returns, assignments and signatures) and whose second mutation is any operator. Both tiers also evaluate the program families of verif/gen/gomutants.Grammar, each a small product of alternatives judged by go/types: terminating statements (18 final statements x 18 trailing statements, in a function and in a function literal), := on a name declared as constant / variable / type / parameter / result in the same, an outer or the package scope, constant indexes and slice bounds of arrays, pointers to arrays, slices and strings, duplicate keys of array, slice and map literals (pairs of keys for 12 map types), untyped nil in every operand position, initialisation dependencies (16 shadowing prefixes x 16 reference contexts x 3 declaration forms), duplicate cases of single, nested, sequential and function-literal switches for 11 tag kinds and for type switches, multi-package programs (unnamed types across packages, import declarations), assignability of defined channel types (8 contexts x 8 targets x 11 values), declarations with unbalanced names and values at package and function level, value- and pointer-receiver methods of a native package's types on 33 operand forms x 5 uses; and importers that fail (7 error flavours x 4 importer shapes x 7 import forms, programs and templates). A case is non-trivial when go/types' verdict is usable (all but mutants that are valid only for a Go version newer than Scriggo's language level); distinct cases are counted by the hash of the mutant text",
+		Rule:        "every first-order mutant of every seed program: each AST position (expression slots, declaration names, statement lists, declaration list, calls, returns, assignments, value specs, function signatures, binary expressions) x each applicable operator of verif/gen/gomutants, plus the deletion of each token; thorough adds, for 5 seeds, every second-order mutant whose first mutation is structural (statement/declaration deletion and duplication, renamed declarations, arities of calls, returns, assignments and signatures) and whose second mutation is any operator. Both tiers also evaluate the program families of verif/gen/gomutants.Grammar, each a small product of alternatives judged by go/types: terminating statements (18 final statements x 18 trailing statements, in a function and in a function literal), := on a name declared as constant / variable / type / parameter / result in the same, an outer or the package scope, constant indexes and slice bounds of arrays, pointers to arrays, slices and strings, duplicate keys of array, slice and map literals (pairs of keys for 12 map types), untyped nil in every operand position, initialisation dependencies (16 shadowing prefixes x 16 reference contexts x 3 declaration forms), duplicate cases of single, nested, sequential and function-literal switches for 11 tag kinds and for type switches, multi-package programs (unnamed types across packages, import declarations), assignability of defined channel types (8 contexts x 8 targets x 11 values), declarations with unbalanced names and values at package and function level, value- and pointer-receiver methods of a native package's types on 33 operand forms x 5 uses, unused variables (6 variable types x 10 declaration forms x 8 positions of the declaration x 20+ ways of mentioning the variable again, read or not, x 4 nestings of the mention), call arity (11 callee kinds: declared, literal, variable, parameter, native function, native methods, method values and expressions, plus builtin append; x 6 parameter shapes x statement/defer/go x every argument list of 0 to params+2 arguments with surplus arguments 1, s, nil or a string, with and without a final ..., and calls with several results as arguments); and importers that fail (7 error flavours x 4 importer shapes x 7 import forms, programs and templates). A case is non-trivial when go/types' verdict is usable (all but mutants that are valid only for a Go version newer than Scriggo's language level); distinct cases are counted by the hash of the mutant text",
 		Assumptions: []string{
 			"reference = go/parser + go/types of the toolchain that builds the check, GoVersion go1.25, no importer; soft errors (unused variable/import/label) are rejections",
 			"Scriggo's supported subset = Go 1.17 language level without generics: a mutant that go/types accepts with GoVersion go1.25 but rejects with go1.17 is outside the subset and skipped",
